@@ -65,6 +65,8 @@ func (c *Config) Proxy(closing chan bool, cc io.ReadWriter, url *url.URL) error 
 	if err != nil {
 		return fmt.Errorf("connecting h2 to %v: %w", url, err)
 	}
+	// The upstream connection belongs to this call: release it on every return path.
+	defer sc.Close()
 	if err := forwardPreface(sc, cc); err != nil {
 		return fmt.Errorf("initializing h2 with %v: %w", url, err)
 	}
@@ -100,16 +102,31 @@ func (c *Config) Proxy(closing chan bool, cc io.ReadWriter, url *url.URL) error 
 	}
 	sToC.processors = cToS.processors
 
+	// When either direction stops, for whatever reason (peer closed, read, write or protocol error,
+	// proxy shutdown), the session is over. Closing both connections unblocks the pending read or write
+	// of the other direction so that it stops as well instead of waiting for its own peer to give up.
+	var stopOnce sync.Once
+	stop := func() {
+		stopOnce.Do(func() {
+			sc.Close()
+			if closer, ok := cc.(io.Closer); ok {
+				closer.Close()
+			}
+		})
+	}
+
 	var wg sync.WaitGroup
 	wg.Add(2)
 	go func() { // Forwards frames from client to server.
 		defer wg.Done()
+		defer stop()
 		if err := cToS.relayFrames(closing); err != nil {
 			log.Errorf("relaying frame from client to %v: %v", url, err)
 		}
 	}()
 	go func() { // Forwards frames from server to client.
 		defer wg.Done()
+		defer stop()
 		if err := sToC.relayFrames(closing); err != nil {
 			log.Errorf("relaying frame from %v to client: %v", url, err)
 		}
